@@ -23,7 +23,7 @@ EXPLANATION = ('For every (leaf shapes, value shape, axis specification, strict/
 FUNCTIONS = ['BroadcastDiagonalOperator.__init__/_normalize_axes/_reshape_diagonal/_reshape_input_leaf/_reshape_leaves/mv',
              'DiagonalOperator._check_leaf_shapes/as_matrix']
 BOUNDS = {'quick': 'leaf shapes (2,),(3,),(2,3),(3,2),(1,3),(2,1),(2,3,2) and 3 pytrees with leaves of different rank; value shapes '
-                   '(2,),(3,),(1,),(2,3),(3,2),(2,1); scalar axes -4..3, all axis tuples over -3..2; strict and broadcast; seeded 700',
+                   '(2,),(3,),(1,),(2,3),(3,2),(2,1); scalar axes -4..3, all axis tuples over -3..2; strict and broadcast; seeded 700; rank-3 values (2,3,2),(2,2,3) under all 12 sign-consistent axis permutations + 3 mixed on 5 leaf shapes',
           'thorough': 'all 2184 single-leaf configurations + 4 more leaf shapes x 8 value shapes (rank <= 3) + pytrees'}
 STUBS = []
 ASSUMPTIONS = ['real arithmetic']
@@ -55,6 +55,12 @@ def cases(tier, seed):
                 for ax in specs:
                     for strict in (False, True):
                         out.append(('diag', (xs,), vs, ax, strict))
+    # rank-3 values under every permutation of the destination axes (a cyclic permutation is not its own inverse: argsort vs rank)
+    for vs in [(2, 3, 2), (2, 2, 3)]:
+        for xs in [(2, 3, 2), (2, 2, 3), (3, 2, 2), (2,), (3, 2)]:
+            for ax in list(itertools.permutations(range(3))) + list(itertools.permutations(range(-3, 0))) + [(0, -1, 1), (-2, 0, 2), (3, 1, 0)]:
+                for strict in (False, True):
+                    out.append(('diag', (xs,), vs, ax, strict))
     for tr in TREES:
         for vs in [(2,), (3,), (2, 3), (1,)]:
             for ax in [0, -1, -2, 1] + list(itertools.permutations(range(-2, 2), len(vs))):
